@@ -220,6 +220,54 @@ class Module(object):
             if isinstance(node, (ast.Import, ast.ImportFrom)):
                 bind(node, False)
 
+    def module_constants(self):
+        """Module-level names bound exactly once (at top level, to a foldable constant) and never rebound through `global`:
+        a behaviour-preserving 'name the magic number' refactoring must read like the literal."""
+        from .astutil import const_value
+        counts = {}
+        vals = {}
+        for st in self.tree.body:
+            tg = []
+            if isinstance(st, ast.Assign):
+                tg = [t for t in st.targets]
+            elif isinstance(st, (ast.AnnAssign, ast.AugAssign)):
+                tg = [st.target]
+            for t in tg:
+                for n in ast.walk(t):
+                    if isinstance(n, ast.Name):
+                        counts[n.id] = counts.get(n.id, 0) + 1
+                        if isinstance(st, ast.Assign) and len(st.targets) == 1 and isinstance(t, ast.Name):
+                            vals[n.id] = st.value
+                        elif isinstance(st, ast.AnnAssign) and st.value is not None and isinstance(t, ast.Name):
+                            vals[n.id] = st.value
+        rebound = set()
+        for n in ast.walk(self.tree):
+            if isinstance(n, ast.Global):
+                rebound.update(n.names)
+        # also names bound at top level inside compound statements (if/try/for/with/def/class/import) are not constants
+        for st in self.tree.body:
+            if isinstance(st, (ast.Assign, ast.AnnAssign, ast.AugAssign, ast.Expr)):
+                continue
+            for n in ast.walk(st):
+                if isinstance(n, ast.Name) and isinstance(n.ctx, ast.Store) and not isinstance(st, (ast.FunctionDef, ast.ClassDef, ast.AsyncFunctionDef)):
+                    rebound.add(n.id)
+                if isinstance(n, ast.alias) and isinstance(st, (ast.Import, ast.ImportFrom)):
+                    rebound.add((n.asname or n.name).split(".")[0])
+            if isinstance(st, (ast.FunctionDef, ast.ClassDef, ast.AsyncFunctionDef)):
+                rebound.add(st.name)
+        env = {}
+        changed = True
+        while changed:
+            changed = False
+            for k, v in vals.items():
+                if k in env or counts.get(k) != 1 or k in rebound:
+                    continue
+                ok, val = const_value(v, env)
+                if ok:
+                    env[k] = val
+                    changed = True
+        return env
+
     def parents(self):
         if self._parents is None:
             p = {}
